@@ -235,6 +235,8 @@ class Repo(object):
             v = self.const_eval(mod.assigns[name], mod, None, depth + 1)
             mod._consts[name] = v
             return v
+        if name in mod.classes:
+            return self.class_handle(mod, name)         # a class of the module used as a value (eg. in a dispatch table)
         raise Unsupported('no module constant %s in %s' % (name, mod.rel))
 
 
